@@ -6,6 +6,10 @@ props = [json.loads(l) for l in open(os.path.join(HERE, "properties.jsonl"))]
 ids = [p["id"] for p in props]
 
 CLAIMED = {
+ "C15": dict(level="model_checking", design="DESIGN.md §3 C15, §10",
+   text="PathTrie.tla states Overlap/Flagged declaratively and transcribes the trie walk of paths.go operationally; TLC checks soundness, per-entry completeness and order-freedom of the operational model for every list within the bounds (and shows the text-keyed variant violates them). Every list up to the bound, all permutations and duplicates included, plus seeded random lists are replayed on the real paths.FindConflicts; seeded longer lists recorded from the real code are classified by TLC.",
+   note="Entries are identified through distinct Meta.Receiver values; finite segment alphabet (literals a,b,c; parameters x,y,id; four spellings). Trusted: TLC, the projection in harness/cmd/vcheck/trie.go.",
+   technique="TLA+ model (PathTrie.tla) checked with TLC; exhaustive small-scope replay of TLC-enumerated lists into paths.FindConflicts; recorded calls classified by TLC (PathTrieTrace.tla)"),
  "C17": dict(level="model_checking", design="DESIGN.md §3 C17, §10",
    text="TLC explores the abstract set-of-nodes/set-of-edges model exhaustively within small constants and checks the view-consistency, idempotence, least-fix-point removal and version-replacement statements; one history per distinct model state plus seeded random walks are replayed on the real symboldg.SymbolGraph with every public query answer compared after the operation, and seeded histories recorded from the real graph are validated by TLC against the same specification.",
    note="Assumes keys fabricated from ast.Ident/gast.FileVersion stand for real declarations; operations address a key at its file's current version; Children/Parents/Descendants compared as sets. Trusted: TLC, Json module, the projection code in harness/cmd/vcheck/graph.go.",
